@@ -33,13 +33,51 @@ META = {
     "title": "PDL patterns act the same interpreted or compiled to pdl_interp",
     "design_ref": "DESIGN.md section 8.C27",
     "technique": "Coq proof that the compiled predicate chain and the direct matcher agree on a restricted PDL language + instruction-level model-vs-code correspondence of the conversion and both interpreters",
-    "level_text": "",
-    "level_note": "",
+    "level_text": (
+        "Theorems in coq/Props/C27.v about an executable model of interpreters/pdl.py (PDLMatcher, PDLRewriteFunctions), of "
+        "the single-pattern PDL-to-pdl_interp conversion (predicate extraction, de-duplication + OrderedPredicate sort, "
+        "chain and rewriter generation) and of the pdl_interp interpreter, for a restricted PDL language (tree of "
+        "pdl.operation nodes, free/shared pdl.operand, pdl.result edges, constant/any attributes, constant/variable types; "
+        "rewrite = constants, new operations, results of new operations, replace root with values / operation, erase root). "
+        "For EVERY pattern, payload and root: (1) the generated matcher chain run by the abstract machine equals the sequential "
+        "evaluation of the predicates under a position semantics (C27_chain_is_sequential_evaluation), the ordering keeps the "
+        "predicate set (C27_ordering_keeps_predicates); (2) C27_match_equiv_partial: under spelled-out side conditions (per "
+        "repair flag) the direct matcher never raises, succeeds exactly when the converted matcher records a match, and binds "
+        "every pattern value to the denotation of the position handed to the rewriter; with all proposed repairs only the "
+        "static tree shape remains (C27_match_equiv_repaired); (3) a chain passing the executable static guard check never "
+        "raises on any payload (C27_matcher_never_raises; the check is evaluated on every case); (4) C27_compile_total. "
+        "The full statement is REFUTED for the code as found by six vm_compute witnesses (C27_*_refuted_*), each reproduced "
+        "on the real code: one (falsy constant attribute) was fixed in /repo during the build (19f27a5), five are listed known "
+        "findings with proposed fix diffs. C27_rewrite_equiv is NOT proved in general: rewrite equivalence rests on the "
+        "instruction-level correspondence, on the refutation witnesses, and on a test of the repaired model on every case. "
+        "Tie: hand-written model with one flag per repair (probed on /repo at every run) vs the real code: conversion output "
+        "compared instruction by instruction, one match_and_rewrite of both real paths at every operation of generated and "
+        "corpus payloads compared with the model (outcome + resulting IR)."),
+    "level_note": (
+        "Trusted: Coq kernel; hand-written model; harness (pattern/payload builders, dumps, canonicalisation; exception "
+        "classes are collapsed to 'raised'). Modelled: PDLMatcher.match_operation/match_operand/match_result/match_type/"
+        "match_attribute, PDLRewriteFunctions (operation, result, attribute, type, replace, erase), PatternRewriter "
+        "insert/replace/erase on a single block, PatternAnalyzer.extract_tree_predicates and helpers, OrderedPredicate "
+        "ordering, generate_matcher/get_value_at/generate_bool_node/generate_success_node/generate_rewriter for ONE pattern "
+        "(the predicate tree is a chain), PDLInterpFunctions for the 21 operations that occur. Not covered: several patterns "
+        "(tree merging, switch nodes), optimize_for_eqsat / ematch, native constraints and rewrites, pdl.operands/types/"
+        "results/range (variadics), typed pdl.attribute, DAG-shaped patterns, re-used pdl.result values in the theorems "
+        "(model and correspondence only), regions/successors in the payload, the PDL verifier, rewrite equivalence as a "
+        "theorem, a pdl.result index beyond the declared results of a new operation and a replacement operation with "
+        "results for a root without results (ill-typed patterns on which the two paths differ: IndexError / ValueError vs "
+        "null value / erase)."),
 }
-COQ_TARGETS = ["C27/Enc.vo", "C27/ProofsChain.vo", "C27/ProofsOrder.vo", "C27/ProofsMatch.vo", "C27/ProofsGuard.vo", "C27/Proofs.vo", "Props/C27.vo"]
+COQ_TARGETS = ["C27/Enc.vo", "C27/ProofsChain.vo", "C27/ProofsOrder.vo", "C27/ProofsMatch.vo", "C27/ProofsGuard.vo", "C27/ProofsTotal.vo", "C27/Proofs.vo", "Props/C27.vo"]
 REQ = ["C27.Model", "C27.Enc", "C27.ProofsGuard"]
-ASSUMPTIONS: list = []
-TRUSTED: list = []
+ASSUMPTIONS = [
+    "match theorem: the side conditions of Proofs.match_side_conditions (truthy constants or repair C27-1; no name in both "
+    "attribute dictionaries or C27-6; well-formed SSA payload and single-result pdl.result edges or C27-2; every "
+    "pdl.operation / pdl.result value once in the tree, no re-used pdl.result value, pdl.result indices within the declared types)",
+    "no-raise theorem: the executable static check compile_guarded holds for the pattern (evaluated on every case of every run)",
+    "compile_total: the rewrite part refers only to existing values (rewrite_refs_ok, executable)",
+]
+TRUSTED = ["the vocabulary mapping ids <-> operation names / attribute values / types of the harness",
+           "Python truth value of an attribute constant is encoded in the sign of its id (checked against bool(attr) for corpus constants)"]
 
 # ---------------------------------------------------------------------------------------------
 # vocabulary shared by the JSON cases, the real IR and the Coq model
@@ -1280,7 +1318,7 @@ def run(ctx: Ctx):
 
     cases = []
     stats = {"patterns": 0, "malformed_rewrites": 0}
-    n_apply, n_conv = (1500, 1200) if thorough else (170, 160)
+    n_apply, n_conv = (1500, 1200) if thorough else (140, 120)
     # the recorded witnesses are ordinary cases as well (model vs code on them)
     for w in WITNESSES.values():
         cases.append({"k": "apply", "p": w["p"], "pl": w["pl"]})
@@ -1326,12 +1364,28 @@ def run(ctx: Ctx):
 
     fam = differential(ctx, DiffSpec("convert+apply(generated,corpus)", REQ, cases, impl, coq_expr, holds, known, nontrivial,
                                      shard=120))
-    # outcome statistics (from a second, cheap look at the apply cases is not needed: recompute from samples)
     ctx.coverage["generation"] = stats
+
+    # TEST (not a theorem) of the rewrite-equivalence statement on the model with every proposed repair present:
+    # direct and converted application agree at every operation of every generated / corpus case
+    sample = [c for c in cases if c["k"] == "apply"]
+    if not thorough:
+        sample = sample[:50]
+    allfx = {n: True for n in FIX_NAMES}
+    try:
+        res = ctx.coq_eval(REQ, [f"c27_apply {coq_fixes(allfx)} {coq_pattern(c['p'])} {coq_payload(c['pl'])}" for c in sample], shard=120)
+        bad = [(c, r) for c, r in zip(sample, res) if any(d != cc for d, cc in r)]
+        applied = sum(1 for r in res if any(d[0] == 1 for d, _ in r))
+        ctx.coverage["repaired_model_test"] = {
+            "what": "model only, all repair flags true: pdl_apply = interp_apply(compile) at every payload operation",
+            "cases": len(sample), "cases_with_a_rewrite": applied, "disagreements": len(bad),
+            "first_disagreement": to_jsonable(bad[0]) if bad else None}
+    except ModelUnavailable as e:
+        ctx.coverage["repaired_model_test"] = {"model_error": str(e)[-400:]}
 
     # pass level (oracle only): both real paths to a fixpoint
     t_pass = {"cases": 0, "equal": 0, "both_raise": 0, "both_no_fixpoint": 0, "known": {}, "failures": 0}
-    for _ in range(400 if thorough else 60):
+    for _ in range(400 if thorough else 50):
         p = gen_pattern(rng, maxdepth=2)
         # any-name roots without operands and results would match func.func / builtin.module themselves
         V = vocab({})
